@@ -23,12 +23,13 @@
    NewThreadScheduler), and as the reference RefTime/RefCounts; RefOK and the prefix invariants
    tie them together.  The driver is advance_to(Horizon) (phase p1), then - when the scenario
    has a stop - start() (phase p2), which must return.                                          *)
-EXTENDS Naturals, Sequences, FiniteSets, TLC, Json
+EXTENDS Integers, Sequences, FiniteSets, TLC, Json
 
 CONSTANTS Forms,     \* subset of {"periodic", "interval", "timer"}
           Periods,   \* periods offered (> 0)
           Starts,    \* instants t0 at which the work is started
           Firsts,    \* first-tick offsets offered to the "timer" form
+          LateFirsts,\* m in LateFirsts: the "timer" form is also given a first due time m BEFORE the subscription instant
           Durs,      \* action durations offered (only those < period are used)
           Over,      \* overrun scenarios: durations period + o, o \in Over, are offered as well ({} = none)
           Horizon,   \* advance_to target of phase p1
@@ -57,7 +58,7 @@ Stops == {[kind |-> "none", at |-> 0]}
          \cup {[kind |-> "raise", at |-> k] : k \in 1..MaxK}
 
 Init == /\ form \in Forms /\ p \in Periods /\ t0 \in Starts
-        /\ first \in (IF form = "timer" THEN Firsts ELSE {p})
+        /\ first \in (IF form = "timer" THEN Firsts \cup {0 - m : m \in LateFirsts} ELSE {p})
         /\ stop \in {s \in Stops : /\ s.kind = "dispose" => s.at >= t0
                                    \* interval/timer are stopped by disposing the subscription only
                                    /\ form # "periodic" => s.kind \in {"none", "dispose"}}
@@ -74,6 +75,16 @@ Init == /\ form \in Forms /\ p \in Periods /\ t0 \in Starts
 (* ---- the self-rescheduling machine --------------------------------------------------------- *)
 InPhase(t) == phase = "p2" \/ (phase = "p1" /\ t <= Horizon)
 Overrun == dur[0] >= p \/ dur[1] >= p
+(* A timer whose first due time already lies in the past when it is subscribed: the first value comes at
+   once (late).  The statement does not say how the timer catches up; two policies are allowed for the
+   call after a late one: keep the original grid (next = due + period) if that is still in the future, or
+   restart the period from now (next = now + period).  Either way a call is never followed by another
+   one at the same instant, values are 0, 1, 2, ..., and no call is earlier than its grid instant.     *)
+Late  == first < 0
+Loose == Overrun \/ Late
+NextDues(now) == IF form = "timer" /\ now > pend.due
+                 THEN {d \in {pend.due + p} : d > now} \cup {now + p}
+                 ELSE {now + p}
 
 \* the instant the pending call would start: its due time, or later when the previous call overran
 StartAt == Max(clock, pend.due)
@@ -96,7 +107,7 @@ Tick == /\ phase \in {"p1", "p2"} /\ CanTick
                       ELSE /\ UNCHANGED disposed
                            \* ... and the next tick is one period after the start of this one,
                            \* with the state the action returned
-                           /\ pend' = [due |-> now + p, k |-> k + 1, st |-> Ret(k, pend.st)]
+                           /\ \E nd \in NextDues(now) : pend' = [due |-> nd, k |-> k + 1, st |-> Ret(k, pend.st)]
         /\ UNCHANGED <<scn, phase, dpend, n1>>
 
 Dispose == /\ phase \in {"p1", "p2"} /\ CanDispose
@@ -134,19 +145,21 @@ Inf == 1000
 
 TypeOK == /\ clock \in Nat /\ pend.k \in 0..KBound /\ Len(ticks) <= KBound
 \* every call so far is the k-th, at its exact instant, with the threaded state (prefix law)
-TicksExact == ~Overrun => \A i \in 1..Len(ticks) : ticks[i] = RefTick(i)
-OncePerPeriod == ~Overrun => \A i \in 1..(Len(ticks) - 1) : ticks[i + 1][2] - ticks[i][2] = p
+TicksExact == ~Loose => \A i \in 1..Len(ticks) : ticks[i] = RefTick(i)
+OncePerPeriod == ~Loose => \A i \in 1..(Len(ticks) - 1) : ticks[i + 1][2] - ticks[i][2] = p
 \* what remains true when calls overrun (and is true always):
 StateThreaded == \A i \in 1..Len(ticks) : ticks[i][1] = i /\ ticks[i][3] = RefState(i)
-AtMostOncePerPeriod == \A i \in 1..(Len(ticks) - 1) : ticks[i + 1][2] >= ticks[i][2] + p
+AtMostOncePerPeriod == ~Late => \A i \in 1..(Len(ticks) - 1) : ticks[i + 1][2] >= ticks[i][2] + p
+NeverTwiceAtOnce == \A i \in 1..(Len(ticks) - 1) : ticks[i + 1][2] > ticks[i][2]
+LateFirstAtOnce == (Late /\ Len(ticks) > 0) => ticks[1][2] = t0
 NotBeforeGrid == \A i \in 1..Len(ticks) : ticks[i][2] >= RefTime(i)
 \* "stops once the returned disposable is disposed": no call starts after the dispose instant
 NoCallAfterDispose == stop.kind = "dispose" => \A i \in 1..Len(ticks) : ticks[i][2] <= stop.at
 NoCallAfterStop == (disposed \/ failed) => pend.k = 0
 StopsOnRaise == raised # 0 => /\ stop.kind = "raise" /\ raised = stop.at /\ Len(ticks) = raised /\ failed
 \* at the end of each phase the number of calls is one the reference allows
-RefOK == /\ (phase \in {"p2", "done"} /\ ~Overrun) => n1 \in RefCounts(Horizon)
-         /\ phase = "done" => /\ ~Overrun => Len(ticks) \in RefCounts(IF stop.kind = "none" THEN Horizon ELSE Inf)
+RefOK == /\ (phase \in {"p2", "done"} /\ ~Loose) => n1 \in RefCounts(Horizon)
+         /\ phase = "done" => /\ ~Loose => Len(ticks) \in RefCounts(IF stop.kind = "none" THEN Horizon ELSE Inf)
                               /\ stop.kind \in {"self", "raise"} => Len(ticks) = stop.at
                               /\ stop.kind = "raise" => raised = stop.at
                               /\ stop.kind # "raise" => raised = 0
@@ -156,6 +169,6 @@ Terminates == <>(phase = "done")
 (* ---- export -------------------------------------------------------------------------------- *)
 Export == phase = "done" =>
             PrintT(ToJson([scn |-> [form |-> form, p |-> p, t0 |-> t0, first |-> first, stop |-> stop,
-                                    dur |-> <<dur[0], dur[1]>>, horizon |-> Horizon, over |-> Overrun, noneAt |-> noneAt],
+                                    dur |-> <<dur[0], dur[1]>>, horizon |-> Horizon, over |-> Overrun, noneAt |-> noneAt, late |-> Late],
                            obs |-> [ticks |-> ticks, n1 |-> n1, raised |-> raised]]))
 ================================================================================
